@@ -169,6 +169,30 @@ func main() {
 		o.Stats["generated"]++
 		process(p, true)
 	}
+	// directed packages (fixed shapes)
+	{
+		dp := u1000.DirectedPackages()
+		var names []string
+		for n := range dp {
+			names = append(names, n)
+		}
+		sort.Strings(names)
+		for _, name := range names {
+			p, errs, _ := u1000.Check("directed/"+name, "example.com/directed/"+name, filepath.Join(*work, "directed", name), dp[name], nil)
+			if len(errs) > 0 {
+				o.Harness = append(o.Harness, fmt.Sprintf("directed/%s does not type-check: %v", name, errs[0]))
+				continue
+			}
+			p.WriteToDisk()
+			if err := p.Analyze(); err != nil {
+				o.Skipped = append(o.Skipped, fmt.Sprintf("directed/%s: analyzer failed: %v", name, err))
+				o.Stats["analyzer_failed"]++
+				continue
+			}
+			o.Stats["directed"]++
+			process(p, true)
+		}
+	}
 	lap("generated packages done")
 	if *testdata != "" {
 		td := filepath.Join(*work, "td")
